@@ -242,8 +242,8 @@ Definition parse_u8 (s : list N) : option N :=
 
 Fixpoint split_on (sep : N) (s : list N) (cur : list N) : list (list N) :=
   match s with
-  | [] => [rev cur]
-  | c :: r => if c =? sep then rev cur :: split_on sep r [] else split_on sep r (c :: cur)
+  | [] => [rev_append cur []]                       (* rev_append: List.rev is quadratic *)
+  | c :: r => if c =? sep then rev_append cur [] :: split_on sep r [] else split_on sep r (c :: cur)
   end.
 Definition split_slash (s : list N) : list (list N) := split_on 47 s [].
 
@@ -316,15 +316,16 @@ Definition parse_subnet (y : yaml) : outcome (option (N * N)) :=
   | _ => Err E_type               (* "{:?}" of the value: no type name computed *)
   end.
 
-(* dhcp/config.rs:478 apply-subnet: offsets 1 .. 2^(32-len) - 2 (exclusive).
-   Repaired (F31): /0 is rejected, /31 and /32 give the empty pool.  Result:
-   first and last address of the pool, None when it is empty. *)
+(* dhcp/config.rs:478 apply-subnet: offsets 1 .. 2^(32-len) - 1 (exclusive),
+   i.e. every host address (the end point is the one after the repair of
+   F19/F20).  Repaired (F31): /0 is rejected, /31 and /32 give the empty pool.
+   Result: first and last address of the pool, None when it is empty. *)
 Definition apply_subnet_range (base len : N) : outcome (option (N * N)) :=
   do hostbits <- sub_chk 32 len ;
   if hostbits =? 32 then Err E_toolarge
   else
     let size := 2 ^ hostbits in                       (* 1u32 << hostbits, hostbits < 32 *)
-    let stop := sat_sub size 2 in
+    let stop := sat_sub size 1 in
     if 1 <? stop then
       do first <- add_chk 32 base 1 ;
       do last <- add_chk 32 base (stop - 1) ;
@@ -537,7 +538,7 @@ End WithIpParser.
 (* ---- serving: the arithmetic that consumes the configuration ----------- *)
 
 (* dhcp/mod.rs:659 build_default_config, one IPv4 prefix of `addresses`:
-   Ipv4Subnet::new(network, len), then offsets 1 .. (1 << (32 - len)) - 2.
+   Ipv4Subnet::new(network, len), then offsets 1 .. (1 << (32 - len)) - 1 (exclusive).
    Repaired (F34): /0, /31 and /32 give no sub-policy.  Result: first and
    last address of the default pool. *)
 Definition default_pool (a len : N) : outcome (option (N * N)) :=
@@ -550,7 +551,7 @@ Definition default_pool (a len : N) : outcome (option (N * N)) :=
       do hostbits <- sub_chk 32 (snd sn) ;
       if 32 <=? hostbits then Panic Overflow                 (* 1u32 << 32 *)
       else
-        do stop <- sub_chk (2 ^ hostbits) 2 ;
+        do stop <- sub_chk (2 ^ hostbits) 1 ;
         if 1 <? stop then
           do first <- add_chk 32 (fst sn) 1 ;
           do last <- add_chk 32 (fst sn) (stop - 1) ;
